@@ -176,8 +176,12 @@ def gen_grid(rng, tier, kinds=("cart2", "cart3", "tri", "tet", "frac2", "frac3",
         spec["aff"] = [[str(x) for x in row] for row in A]
     if spec["type"] in ("tri", "tet") or (spec["type"] == "cart" and nd == 2) or nd == 1:
         if rng.random() < 0.6:
-            spec["jit"] = rng.choice([3, 6, 12]) if nd > 1 else rng.choice([3, 12, 20])
+            spec["jit"] = (rng.choice([2, 4, 6]) if spec["type"] == "tet" else rng.choice([3, 6, 12])) if nd > 1 else rng.choice([3, 12, 20])
             spec["pseed"] = rng.randrange(10**6)
+            try:
+                build_grid(spec)  # compute_geometry refuses inverted cells: keep only valid perturbed grids
+            except ValueError:
+                del spec["jit"], spec["pseed"]
     return spec
 
 
